@@ -90,7 +90,8 @@ def cases(tier, seed):
                 for skipna in (True, False):
                     yield _fixed_case(op, target, part, {"skipna": skipna})
             for op in OTHER_OPS:
-                yield _fixed_case(op, target, part, {})
+                if not (op == "value_counts" and target == "frame"):
+                    yield _fixed_case(op, target, part, {})
     # ---- random -----------------------------------------------------------------------
     k = 5000 if tier == "quick" else 90000
     for _ in range(k):
@@ -131,7 +132,7 @@ def _rand_case(rng):
     if se != "omit":
         case["se"] = se
     kw = case["kw"]
-    target = "series" if rng.random() < 0.5 else "frame"
+    target = "series" if (rng.random() < 0.5 or op == "value_counts") else "frame"
     case["target"] = target
     if target == "series":
         case["col"] = rng.choice(POOL[op])
@@ -306,8 +307,21 @@ def _compare(case, r, e, pdf, facts):
     if op == "value_counts":
         return _cmp_value_counts(case, r, e, check_dtype)
     if isinstance(e, (pd.Series, pd.DataFrame)):
-        return F.compare(r, e, ordered=True, rtol=1e-9, check_dtype=check_dtype)
+        return _reclass(F.compare(r, e, ordered=True, rtol=1e-9, check_dtype=check_dtype))
     return _cmp_scalar(r, e, _scale(pdf, case), check_dtype)
+
+
+def _reclass(mm):
+    """frames.compare classifies by words in the pandas message; '[index]:' in a values message is not an index
+    mismatch."""
+    if not mm:
+        return mm
+    kind, msg = mm
+    low = msg.lower()
+    if kind == "index" and not (".index" in low or "index classes" in low or "index are different" in low
+                                or "columns" in low or "multiindex" in low):
+        kind = "values"
+    return (kind, msg)
 
 
 def _skind(v):
@@ -343,9 +357,7 @@ def _cmp_scalar(r, e, scale, check_dtype):
     if rna or ena:
         if rna != ena:
             return ("values", "scalar %r vs expected %r" % (r, e))
-        if check_dtype and rk != ek:
-            return ("dtype", "missing scalar %r (%s) vs expected %r (%s)" % (r, rk, e, ek))
-        return None
+        return None   # NaN / NA / NaT are all "missing" for a scalar (frames.compare discipline)
     if ek in ("float", "int", "bool") and rk in ("float", "int", "bool"):
         if ek == "float" or rk == "float":
             ok = abs(float(r) - float(e)) <= 1e-9 * abs(float(e)) + 1e-9 * scale or (np.isinf(e) and r == e)
@@ -373,7 +385,7 @@ def _cmp_value_counts(case, r, e, check_dtype):
 
     if not isinstance(r, pd.Series):
         return ("kind", "got %s, expected Series" % type(r).__name__)
-    mm = F.compare(r, e, ordered=False, rtol=1e-9, check_dtype=check_dtype)
+    mm = _reclass(F.compare(r, e, ordered=False, rtol=1e-9, check_dtype=check_dtype))
     if mm:
         return mm
     if r.index.name != e.index.name:
